@@ -308,6 +308,32 @@ theorem parseTy_tyString (t : Ty) (f : Nat) (r : Bytes) (hs : stop r = true) (hf
     parseTy f (tyString t ++ r) = some (t, r) :=
   B_of_A t (parse_print t) f r hs hf
 
+/-- any continuation that is not itself a postfix form (`*`, ` a…`, ` (`) -/
+def stopG (r : Bytes) : Bool :=
+  match r with
+  | 42 :: _ => false
+  | 32 :: 97 :: _ => false
+  | 32 :: 40 :: _ => false
+  | _ => true
+
+theorem parsePost_stopG (f : Nat) (t : Ty) (r : Bytes) (h : stopG r = true) : parsePost (f + 1) t r = some (t, r) := by
+  unfold stopG at h
+  split at h
+  · cases h
+  · cases h
+  · cases h
+  · rename_i h1 h2 h3
+    simp only [parsePost]
+
+/-- Round trip for a type followed by anything that may follow a type and is not a postfix form
+    (e.g. ` 42` in `i32 42`) -/
+theorem parseTy_tyString_gen (t : Ty) (f : Nat) (r : Bytes) (hc : cont r = true) (hs : stopG r = true) (hf : w t ≤ f) :
+    parseTy f (tyString t ++ r) = some (t, r) := by
+  have hp := post_lt_w t
+  obtain ⟨g, rfl⟩ : ∃ g, f = (g + 1) + post t + 1 := ⟨f - post t - 2, by omega⟩
+  rw [parse_print t (g + 1) r hc (by omega)]
+  exact parsePost_stopG g t r hs
+
 /-- **The type printer is injective.** -/
 theorem tyString_injective (t u : Ty) (h : tyString t = tyString u) : t = u := by
   have h1 := parseTy_tyString t (max (w t) (w u)) [] rfl (Nat.le_max_left _ _)
